@@ -299,6 +299,9 @@ inline std::string escape_literal_char(const char ch)
         return "\\r";
     case '\t':
         return "\\t";
+    case '?':
+        // `??x` can be a trigraph
+        return "\\?";
     default:
         break;
     }
